@@ -40,7 +40,7 @@ func init() {
 		Rule: "case = sketch reached by a seeded history (both variants, all 5 store kinds, both signs), then Reweight(w) for dyadic-budgeted w in {a*2^k}: <1, =1, >1; oracle: every bin, the zero bucket and the count equal the model scaled by w exactly, exact sum within the bound, exact min/max bitwise unchanged, and the whole observation equals that of a second real sketch built by adding the same items with weights*w; " +
 			"the hook shows paginated stores holding both buffered and paged indexes at the time of the call. Non-trivial = both sides non-empty and w != 1; distinct = hash of the history and w.",
 		Cases:     core.Scale(80000, 2000000),
-		Mandatory: []string{"oracle.reweight_checks", "oracle.rebuilt_twin_checks", "reweight.lt1", "reweight.gt1", "reweight.eq1", "layout.reweight_with_buffer_and_pages", "reweight.both_sides"},
+		Mandatory: []string{"oracle.reweight_checks", "oracle.rebuilt_twin_checks", "reweight.lt1", "reweight.gt1", "reweight.eq1", "reweight.near_one", "layout.reweight_with_buffer_and_pages", "reweight.both_sides"},
 		Run:       runC16,
 	})
 }
@@ -595,6 +595,14 @@ func runC16(c *core.Ctx) {
 	switch c.Index % 5 {
 	case 0:
 		f = 1
+	case 1:
+		// a factor within 2^-10..2^-31 of one: still a reweighting
+		f = h.budget.NearOneFactor(r)
+		if f != 0 {
+			c.Count("reweight.near_one", 1)
+			break
+		}
+		fallthrough
 	default:
 		for try := 0; try < 20 && (f == 0 || f == 1); try++ {
 			f = h.budget.Factor(r)
